@@ -110,6 +110,113 @@ class FakeConn:
         pass
 
 
+class FakeSocket:
+    """socket under the real frappy.lib.asynconn.AsynTcp (scenario option tcp=True): the client then runs the
+    real recv / readline / shutdown / disconnect code instead of FakeConn"""
+
+    def __init__(self, w, timeout):
+        self.w = w
+        self.peer = w.peer
+        self.timeout = timeout
+        self.shut = False
+        self.closed = False
+        w.conns += 1
+
+    def settimeout(self, t):
+        self.timeout = t
+
+    def sendall(self, data):
+        s = self.w.sched
+        s.yield_('io.send')
+        if self.closed:
+            raise OSError(9, 'Bad file descriptor')
+        if self.shut:
+            raise BrokenPipeError(32, 'Broken pipe')
+        if not self.peer.open:
+            return     # bytes written to a connection the peer has closed are lost silently
+        for line in data.split(b'\n'):
+            if line:
+                self.peer.c2p.append(line.decode())
+                parts = line.decode().split(' ', 2)
+                s.log(ev='io_send', action=parts[0], data=parts[2] if len(parts) > 2 else None)
+        if s.me() is not None and not s.aborting:
+            s.yield_('io.sent')
+
+    def recv(self, n):
+        import socket
+        s = self.w.sched
+        p = self.peer
+        if self.closed:
+            raise OSError(9, 'Bad file descriptor')
+        s.yield_('io.readline')
+        s.block(lambda: bool(p.p2c) or not p.open or self.shut or self.closed, self.timeout, 'readline')
+        if p.p2c and not self.shut:
+            line = p.p2c.pop(0)
+            s.log(ev='io_recv', line=line)
+            return line.encode() + b'\n'
+        if self.shut or self.closed:
+            return b''
+        if not p.open:
+            if self.w.sc.get('reset'):
+                self.reset = True
+                raise ConnectionResetError(104, 'Connection reset by peer')
+            return b''      # end of file
+        s.log(ev='io_silence')
+        raise socket.timeout('timed out')
+
+    reset = False
+
+    def shutdown(self, how):
+        s = self.w.sched
+        if s.me() is not None and not s.aborting:
+            s.yield_('io.shutdown')
+        if self.shut or self.reset or self.closed:
+            # already shut down / reset by the peer: the kernel reports ENOTCONN (a plain OSError)
+            raise OSError(107, 'Transport endpoint is not connected')
+        self.shut = True
+        if self.peer.open:
+            self.peer.open = False
+            self.peer.closed_by = 'client'
+            if not s.aborting:
+                s.log(ev='io_shutdown')
+
+    def close(self):
+        self.closed = True
+        self.shut = True
+
+
+class FakeSocketModule:
+    import socket as _real
+    timeout = _real.timeout
+    gaierror = _real.gaierror
+    error = _real.error
+    SHUT_RDWR = _real.SHUT_RDWR
+
+    def __init__(self, w):
+        self.w = w
+
+    def create_connection(self, addr, timeout=None):
+        w = self.w
+        if not w.peer.open and w.sc.get('reopen') is not None and not w.peer.refuse:
+            w.attempts += 1
+            if w.attempts > w.sc['reopen']:
+                w.peer.open = True
+                w.peer.closed_by = None
+                del w.peer.c2p[:]
+                del w.peer.p2c[:]
+                w.sched.log(ev='peer_reopen')
+        if w.peer.refuse or not w.peer.open:
+            w.sched.log(ev='connect_refused')
+            raise ConnectionRefusedError(111, 'Connection refused')
+        return FakeSocket(w, timeout)
+
+
+class FakeSelectModule:
+    @staticmethod
+    def select(r, w, x, timeout=None):
+        return [c for c in r if c.peer.p2c or not c.peer.open], [], []
+
+
 class World:
     def __init__(self, strategy, line_level=False, max_steps=20000, sc=None):
         boot()
@@ -122,7 +229,12 @@ class World:
         self.peer = Peer(self.sched, None)
         self.conns = 0
         FakeConn.world = self
-        self.patch = ds.Patch(fc, extra={'frappy.client': {'AsynConn': FakeConn}})
+        if self.sc.get('tcp'):
+            import frappy.lib.asynconn as fa
+            self.patch = ds.Patch(fc, fa, extra={'frappy.lib.asynconn': {'socket': FakeSocketModule(self),
+                                                                         'select': FakeSelectModule}})
+        else:
+            self.patch = ds.Patch(fc, extra={'frappy.client': {'AsynConn': FakeConn}})
         self.client = None
         self.results = {}
 
@@ -135,7 +247,7 @@ class World:
             def __del__(self):   # finalizers must not touch primitives of later runs
                 pass
 
-        self.client = Client('fake://x', LoggerStub('client'))
+        self.client = Client('tcp://node:10767' if self.sc.get('tcp') else 'fake://x', LoggerStub('client'))
         return self.client
 
 
